@@ -13,14 +13,21 @@ CLAIM = dict(
          "spread export, every error variant of these paths with the start of its primary span) over the C12 AST and "
          "the validated graph model Graph.v; LANGUAGE.md restated independently (LangSpec.v) as per-import binding "
          "rules (explicit argument, else first exporting spread in spread order, else `...`, else missing) and as a "
-         "reference evaluation to compositions of values. Machine-checked: the resolver's argument table is exactly "
-         "the declarative binding of every import of the instantiated package (arg_binding_spec), spreads bind "
-         "exactly the still-unbound imports the instance exports, in order, an ineffective spread and a misplaced "
-         "`...` are rejected (spread_fill_spec), the argument/access/export names are the documented ones under the "
-         "stated reading (access_spec, export_name_spec), a let only names (let_only_names), each modelled "
-         "ill-formedness class is rejected with its diagnostic (illformed_rejected, per class); where the reference "
-         "as written is contradicted by the faithful model the theorem is _refuted with a witness program that is "
-         "replayed on the real resolver. Tie: for every generated program (and one single-fault variant each) over "
+         "reference evaluation to compositions of values. Machine-checked (13 theorems, closed): argument names follow "
+         "the documented inference rules (arg_name_spec); after a successful `new` the argument table binds every import "
+         "of the instantiated package by the first applicable rule -- explicit argument, else first exporting spread in "
+         "spread order through the alias of that export, else implicit when `...` is present, never missing -- and every "
+         "table entry is an argument of the instantiation in the graph (arg_binding_spec_partial: the converse inclusion "
+         "is left to the correspondence); one spread adds exactly the still-unbound imports its instance exports, at "
+         "least one, and `...` is accepted only last (spread_fill_spec, fill_must_be_last); access expressions select "
+         "the documented export and yield its alias, with the two diagnostics otherwise (access_spec); import and export "
+         "names incl. spread export (import_name_spec, export_name_spec, export_spread_name_spec); a let only names and "
+         "expressions only extend the graph (let_only_names, expressions_only_extend); for each of the nine "
+         "ill-formedness classes the condition is equivalent to its diagnostic at the construct that detects it "
+         "(illformed_rejected_partial: the whole-document simulation between resolve and the reference evaluation is "
+         "not proved); the reference AS WRITTEN is contradicted by the faithful model in two places "
+         "(access_spec_doc_refuted, export_spread_doc_refuted: vm_compute witness programs, replayed on the real "
+         "resolver). Tie: for every generated program (and one single-fault variant each) over "
          "generated package libraries the real Document::parse+resolve(+encode) is compared with the extracted model "
          "(error variant + span start + name, or the full graph dump) and the extracted reference verdict is checked "
          "on the implementation's own observation.",
@@ -44,7 +51,7 @@ DOC_ANCHORS = [
     "If `...` is not specified, then all instantiation arguments must be explicitly",
     "If the local name is bound to an instance with an associated package path",
     "If the local name is bound to an explicit import or an access of an instance",
-    "If the component being instantiated has exactly one import that has a path",
+    "exactly one import that has a path",
     "Lastly, the local name will be used as the argument name",
     "Otherwise, the kebab-case identifier will be used as the argument name",
     "Note that spread arguments apply _after_ inferred and named arguments and are",
@@ -266,9 +273,18 @@ def evaluate(cases, impl, model, known_flags):
     return res
 
 
+# If LANGUAGE.md is amended to state the implementation's reading (hooks/fix-c04-doc-name-rules.patch), the flag becomes the
+# documented rule: it is switched on without being a finding.
+DOC_STATES_FLAG = {0: "no import named exactly like the", 1: "evaluation error if every export of the instance conflicts"}
+
+
+def doc_text():
+    return " ".join(open(os.path.join(vlib.REPO, "LANGUAGE.md")).read().split())
+
+
 def doc_tie():
     try:
-        text = " ".join(open(os.path.join(vlib.REPO, "LANGUAGE.md")).read().split())
+        text = doc_text()
     except OSError as e:
         return ["LANGUAGE.md unreadable: %r" % e]
     return [a for a in DOC_ANCHORS if " ".join(a.split()) not in text]
@@ -296,7 +312,12 @@ def run(res, tier, seed, replay):
     for e in entries:
         e.setdefault("flag", flag_of.get(e.get("id")))
     entries = [e for e in entries if e.get("flag") is not None]
-    known_flags = {e["flag"] for e in entries}
+    try:
+        documented = {fl for fl, marker in DOC_STATES_FLAG.items() if marker in doc_text()}
+    except OSError:
+        documented = set()
+    entries = [e for e in entries if e["flag"] not in documented]
+    known_flags = {e["flag"] for e in entries} | documented
     flags = "".join("1" if j in known_flags else "0" for j in range(2))
     runs = []
     if replay:
@@ -362,7 +383,7 @@ def run(res, tier, seed, replay):
         spec_failures_on_impl=len(failing), distinct_nontrivial=len(distinct),
         base_programs=len(base), faulty_variants=len(faulty), reference_verdict_distribution=dist,
         injected_fault_reaches_its_class={f: f"{hit[f]}/{tot[f]}" for f in tot},
-        programs_using_form=forms, known_deviation_flags=flags,
+        programs_using_form=forms, known_deviation_flags=flags, flags_stated_by_the_reference=sorted(documented),
         cases_exercising_known_deviation={e["id"]: len([r for r in progs if e["flag"] in r["dev"]]) for e in entries},
         samples=samples,
         rule="per block a generated library: 6 WIT-shaped packages (foo:bar, foo:bar@1.0.0, foo:bar@2.0.0, other:lib, wasi:io@0.2.0, "
